@@ -142,7 +142,23 @@ func sortEigensystem(eigenvectors Matrix, eigenvalues Vector) {
     sortEigenvalues(eigenvalues)
   } else {
     p := sortEigenvalues(eigenvalues)
-    eigenvectors.PermuteColumns(p)
+    // p is a general permutation (sorted position i holds old column p[i]),
+    // whereas PermuteColumns applies a sequence of interchanges i <-> s[i],
+    // s[i] >= i; convert p into that form
+    n   := len(p)
+    s   := make([]int, n) // interchange sequence
+    at  := make([]int, n) // at [k]: old column currently at position k
+    pos := make([]int, n) // pos[k]: current position of old column k
+    for i := 0; i < n; i++ {
+      at[i], pos[i] = i, i
+    }
+    for i := 0; i < n; i++ {
+      j := pos[p[i]]
+      s[i] = j
+      at[i], at[j] = at[j], at[i]
+      pos[at[i]], pos[at[j]] = i, j
+    }
+    eigenvectors.PermuteColumns(s)
   }
 }
 
